@@ -76,6 +76,31 @@ pub fn blocks(thorough: bool) -> Vec<Block> {
         b.push(Block::new(Universe::new("U_fold{s,U+017F,k,U+212A}", &["s", "\u{17f}", "k", "\u{212a}"], 3, 2, false), anch(&[I, I | R, I | X, I | R | X]), "{na,ne,na+ne} x {i, i+r, i+x, i+r+x}"));
         b.push(Block::new(u_kind_pairs(2, 2, false), anch(&[0]), "{na,ne,na+ne}"));
         b.push(Block::new(u_many(30), anch(&[0, R, X]), "{na,ne,na+ne} x {{}, r, x}"));
+        {
+            // a shadowing shape (a shorter test case is a prefix of a longer one and sorts first) next to one long
+            // test case: whatever the self-check does with big patterns, the small shape still has to be repaired
+            let shapes: [&[&str]; 3] = [&["a", "-a", "aaa", "a--"], &["a", "ba", "aab", "aba"], &["1", "x1", "111", "1xx"]];
+            let mut words_l: Vec<String> = vec![];
+            let mut sets_l: Vec<Vec<usize>> = vec![];
+            for sh in shapes {
+                for n in [1usize, 30, 60, 120, 240] {
+                    let mut set = vec![];
+                    for w in sh.iter().map(|x| x.to_string()).chain([format!("+{}", "xy".repeat(n / 2 + 1))]) {
+                        let i = match words_l.iter().position(|x| *x == w) {
+                            Some(i) => i,
+                            None => {
+                                words_l.push(w);
+                                words_l.len() - 1
+                            }
+                        };
+                        set.push(i);
+                    }
+                    sets_l.push(set);
+                }
+            }
+            let u = Universe { name: "U_shadow+long: three shadowing shapes of 4 test cases, each next to + followed by 2..242 letters".to_string(), words: words_l, sets: sets_l };
+            b.push(Block::new(u, anch(&[0, W, NW, D | W, ND, W | R]), "{na,ne,na+ne} x {{}, w, W, d+w, D, w+r}"));
+        }
         b.push(Block::new(Universe::new("U_b,U+00DF", &["b", "\u{df}"], 3, 0, false), vec![Cfg::new(NE | E | U), Cfg::new(NA | NE | E | U), Cfg::new(NE | E)], "ne+e+u, na+ne+e+u, ne+e (escaping on BMP-only inputs: no surrogate is ever written, the pattern is meant for the regex crate)"));
         let class_pairs: Vec<u32> = {
             let f = [D, ND, S, NS, W, NW];
